@@ -311,7 +311,7 @@ fn drive<F: TagFrame, D: SliceMut<Element = F>>(
     let end = if end < 0 { None } else { Some(end as u64) };
     let mut st = Sched {
         policy: src.cfg("policy", 0, 4, |r| r.range(0, 4)),
-        steps: src.cfg("steps", 0, 200, |r| r.range(1, 200)) as usize,
+        steps: src.cfg("steps", 0, 4000, |r| if r.chance(1, 40) { r.range(800, 4000) } else { r.range(1, 200) }) as usize,
         done: 0,
         allow_rc: src.cfg("allow_rc", 0, 1, |r| r.chance(1, 3) as i64) == 1,
         allow_resplit: src.cfg("allow_resplit", 0, 1, |r| r.chance(1, 2) as i64) == 1,
@@ -350,9 +350,11 @@ fn drive<F: TagFrame, D: SliceMut<Element = F>>(
 }
 
 fn with_storage<F: TagFrame>(src: &mut Source, obs: &mut Observer) -> Result<(), Violation> {
-    let cap = src.cfg("cap", 1, 8, |r| match r.below(5) {
-        0 => 1,
-        1 => 2,
+    let cap = src.cfg("cap", 1, 130, |r| match r.below(20) {
+        0..=3 => 1,
+        4..=7 => 2,
+        8 => *r.pick(&[12i64, 15, 16, 17, 31, 32, 33, 64, 65, 100, 128]),
+        9 => r.range(9, 130),
         _ => r.range(1, 8),
     }) as usize;
     let start = src.cfg("rb_start", 0, cap as i64 - 1, |r| {
@@ -421,7 +423,7 @@ impl Scenario for ForkScenario {
     }
     fn runs(&self, tier: &str) -> u64 {
         if tier == "quick" {
-            600_000
+            1_500_000
         } else {
             60_000_000
         }
